@@ -5,7 +5,8 @@
    arrivals, completions, failures, cancellations, PANICS of the shared work (leader) and of anybody's own
    work, and every answer (ok / error / panic) of every participant's own client writer. *)
 From Gv Require Import lib.Bytes C11.Model C11.Spec C11.ProofsInbMain C11.ProofsSubMain
-  C11.ProofsSpec C11.ProofsRefuted C11.ProofsCheckerInb C11.ProofsCheckerSub.
+  C11.ProofsSpec C11.ProofsRefuted C11.ProofsCheckerInb C11.ProofsCheckerSub C11.ModelHint C11.SpecHint.
+From Gv Require C11.ProofsHint.
 From Coq Require Import Arith.
 Open Scope nat_scope.
 
@@ -319,3 +320,93 @@ Theorem c11_sub_panic_wedges_without_defer_refuted :
     Sub.tbl s (rkey ProofsRefuted.wreq) = Some 0 /\ Sub.it_loaded (Sub.itm s 0) = false.
 Proof. exact ProofsRefuted.sub_panic_wedges_nodefer_l. Qed.
 Print Assumptions c11_sub_panic_wedges_without_defer_refuted.
+
+(* ------------------------------------------------------------------ the size-hint table (ModelHint.v)
+   Shared by all leaders of one fetchKey (different sfKeys included).  [Hint.run guard fkeys tr]: every
+   interleaving [tr] of the atomic regions of any number of leaders (leader i has fetchKey [nth i fkeys]):
+   Load / locked read of the hint in GetOrCreateItem, Load / LoadOrStore(empty entry) / locked record in
+   Finish, response lengths chosen by the environment. *)
+From Coq Require Import ZArith.
+
+(* the hint computation never divides by zero, for any interleaving and any response lengths: the reader
+   tests [count > 0] under the entry's mutex ([guard = true] = the code as it is) *)
+Theorem c11_hint_never_panics : forall fkeys tr s i,
+  Hint.run true fkeys tr Hint.init = Some s -> Hint.h_pc (Hint.act s i) <> Hint.PPanic.
+Proof. exact ProofsHint.never_panics_l. Qed.
+Print Assumptions c11_hint_never_panics.
+
+Example c11_hint_never_panics_ex :
+  exists s, Hint.run true [7%N; 7%N] [Hint.HStep 0; Hint.HAns 0 120%Z; Hint.HStep 0; Hint.HStep 0; Hint.HStep 1; Hint.HStep 1;
+                                     Hint.HStep 0; Hint.HAns 1 80%Z; Hint.HStep 1; Hint.HStep 1] Hint.init = Some s /\
+            Hint.h_hint (Hint.act s 1) = 0%Z /\ Hint.h_pc (Hint.act s 1) = Hint.PDone /\
+            Hint.tbl s 7%N = Some {| Hint.e_count := 2; Hint.e_total := 200 |}.
+Proof. eexists. split; [vm_compute; reflexivity|]. vm_compute. repeat split; reflexivity. Qed.
+
+(* without the test (the reader divides whenever it finds an entry) a second leader of the same fetchKey that is
+   elected between the first finisher's LoadOrStore and its first record panics: the entry is published EMPTY *)
+Theorem c11_hint_unguarded_refuted :
+  exists fkeys tr s, Hint.run false fkeys tr Hint.init = Some s /\ Hint.fk fkeys 0 = Hint.fk fkeys 1 /\
+                     Hint.h_pc (Hint.act s 1) = Hint.PPanic /\
+                     Hint.tbl s (Hint.fk fkeys 0) = Some Hint.entry0 /\ Hint.h_pc (Hint.act s 0) = Hint.PRec.
+Proof. exact ProofsHint.unguarded_refuted_l. Qed.
+Print Assumptions c11_hint_unguarded_refuted.
+
+(* the rolling window: with response lengths in [0, M], every entry keeps 0 <= count <= 50 and
+   0 <= total <= count * M (the fold at 50 replaces the window by one sample of its mean), every hint
+   handed to a leader is a mean: 0 <= hint <= M *)
+Theorem c11_hint_window_bounds : forall guard fkeys M tr s,
+  (0 <= M)%Z -> ProofsHint.bounded M tr -> Hint.run guard fkeys tr Hint.init = Some s ->
+  (forall k e, Hint.tbl s k = Some e ->
+     (0 <= Hint.e_count e <= Hint.window)%Z /\ (0 <= Hint.e_total e <= Hint.e_count e * M)%Z) /\
+  (forall i, (0 <= Hint.h_hint (Hint.act s i) <= M)%Z /\ (0 <= Hint.h_len (Hint.act s i) <= M)%Z).
+Proof. exact ProofsHint.window_bounds_l. Qed.
+Print Assumptions c11_hint_window_bounds.
+
+(* hence no wrap-around of Go's 64-bit int as long as 50 responses fit: M * 50 < 2^63 *)
+Theorem c11_hint_no_overflow : forall guard fkeys M tr s,
+  (0 <= M)%Z -> (M * Hint.window < 2 ^ 63)%Z -> ProofsHint.bounded M tr -> Hint.run guard fkeys tr Hint.init = Some s ->
+  (forall k e, Hint.tbl s k = Some e -> (Hint.e_total e < 2 ^ 63)%Z /\ (Hint.e_count e < 2 ^ 63)%Z) /\
+  (forall k e n, Hint.tbl s k = Some e -> (0 <= n <= M)%Z -> (Hint.e_total (Hint.record e n) < 2 ^ 63)%Z) /\
+  (forall i, (Hint.h_hint (Hint.act s i) < 2 ^ 63)%Z).
+Proof. exact ProofsHint.no_overflow_l. Qed.
+Print Assumptions c11_hint_no_overflow.
+
+Example c11_hint_window_fold_ex :
+  Hint.record {| Hint.e_count := 50; Hint.e_total := 5000 |} 30%Z = {| Hint.e_count := 2; Hint.e_total := 130 |} /\
+  Hint.record Hint.entry0 0%Z = {| Hint.e_count := 1; Hint.e_total := 0 |}.
+Proof. split; reflexivity. Qed.
+
+(* an entry without a sample exists only while its publisher is between LoadOrStore and its first record;
+   so once no finisher is in that window every entry has count >= 1 and the hint is the mean *)
+Theorem c11_hint_empty_entry_has_publisher : forall guard fkeys tr s k e,
+  Hint.run guard fkeys tr Hint.init = Some s -> Hint.tbl s k = Some e ->
+  (0 <= Hint.e_count e)%Z /\
+  (Hint.e_count e = 0%Z ->
+   exists i, i < length fkeys /\ Hint.fk fkeys i = k /\ Hint.h_pc (Hint.act s i) = Hint.PRec).
+Proof. exact ProofsHint.empty_entry_has_publisher_l. Qed.
+Print Assumptions c11_hint_empty_entry_has_publisher.
+
+(* the table never blocks a leader: whatever the others did, a leader that has not finished can take its next step *)
+Theorem c11_hint_progress : forall guard fkeys M tr s i,
+  (0 <= M)%Z -> ProofsHint.bounded M tr -> Hint.run guard fkeys tr Hint.init = Some s -> i < length fkeys ->
+  match Hint.h_pc (Hint.act s i) with
+  | Hint.PDone | Hint.PPanic => True
+  | Hint.PWork => forall n, (0 <= n)%Z -> Hint.step guard fkeys s (Hint.HAns i n) <> None
+  | _ => Hint.step guard fkeys s (Hint.HStep i) <> None
+  end.
+Proof. exact ProofsHint.progress_l. Qed.
+Print Assumptions c11_hint_progress.
+
+(* the checker that runs on the implementation's observables of a size-hint schedule decides these clauses *)
+Theorem c11_hint_spec_b_sound : forall os sizes,
+  hint_spec_b os sizes = None ->
+  Forall (hobs_ok (max_len os)) os /\ Forall (size_ok (max_len os)) sizes.
+Proof. exact SpecHint.hint_spec_b_sound_l. Qed.
+Print Assumptions c11_hint_spec_b_sound.
+
+Example c11_hint_spec_b_ex :
+  hint_spec_b [ {| ho_res := HRDone; ho_hint := 0; ho_len := 120 |}; {| ho_res := HRDone; ho_hint := 0; ho_len := 80 |} ]
+              [ (2, 200)%Z ] = None /\
+  hint_spec_b [ {| ho_res := HRDone; ho_hint := 0; ho_len := 120 |}; {| ho_res := HRPanic; ho_hint := 0; ho_len := 0 |} ]
+              [ (1, 120)%Z ] = Some (1, HCNoPanic).
+Proof. split; reflexivity. Qed.
